@@ -423,3 +423,30 @@ def run(ctx):
         "samples": acc.samples[:3],
         "exhaustive": True,
     }
+
+
+def replay(ctx, data):
+    """Rebuild the reported history in the reported format; True if the property holds on it."""
+    from breezy.repository import Repository
+    from mc import world as mw
+    from mc.vfs import new_store
+    d = data["first"]
+    fmt = d["format"]
+    store = new_store()
+    b = mw.make_branch(store.transport("b"), fmt)
+    hist = []
+    for k, h in enumerate(d["history"]):
+        state = tuple(h["tree"].split(","))
+        rid, ps = h["revid"].encode(), tuple(p.encode() for p in h["parents"])
+        mw.commit_spec(b, rid, list(ps), spec_of(state), timestamp=1_000_000_001.0 + k)
+        hist.append((rid, ps, state))
+    repo = Repository.open(b.repository.user_url)
+    rich = repo.supports_rich_root()
+    got = observe(repo, hist, rich)
+    diffs = [first_diff(hist, reference(hist, rich, rd), got) for rd in ("file", "rev")]
+    for x in diffs:
+        print("  model comparison:", x)
+    with repo.lock_read():
+        c = repo.check()
+    print("  check(): inconsistent parents %r, unreferenced %r" % (c.inconsistent_parents, sorted(c.unreferenced_versions)))
+    return (None in diffs) and not c.inconsistent_parents and not c.unreferenced_versions and not c._report_items
